@@ -99,7 +99,11 @@ Definition bounds_writes_before_copy_ok : bool :=
   | [l] => forallb (fun a => negb (Z.ltb (a_line a) (a_line l)) ||
                              mem (a_value a) ["None"; "-1e+20 * np.ones((n,))"; "1e+20 * np.ones((n,))";
                                               "bounds[0].astype(float) if bounds[0] is not None else None";
-                                              "bounds[1].astype(float) if bounds[1] is not None else None"])
+                                              "bounds[1].astype(float) if bounds[1] is not None else None"] ||
+                             (* malformed bounds are dropped only on the way to the input-error return (no evaluation follows: C07) *)
+                             (streq (a_value a) "(-1e+20 * np.ones((n,)), 1e+20 * np.ones((n,)), False)" && has_guard (a_guards a) true "bounds_error is not None" &&
+                              existsb (fun c => streq (c_func c) "solve" && slist_eq (c_args c) ["EXIT_INPUT_ERROR"; "bounds_error"] &&
+                                                has_guard (c_guards c) true "exit_info is None and bounds_error is not None") (calls_of T_calls "ExitInformation")))
                    (solve_assigns "xl" ++ solve_assigns "xu")
   | _ => false
   end.
